@@ -210,6 +210,18 @@ def run(tier, rep):
                     rep.violation('elementwise', dict(e=cases[order[j]]['e'], scale=float(sc[j]), array=[float(flat[j]), float(flate[j])], scalar=[float(s_got[0]), float(s_err[0])]),
                                   'element %d of a %s array gives (%r, %r) but the same triple alone gives (%r, %r)' % (j, shape, flat[j], flate[j], s_got[0], s_err[0]))
                     break
+            if len(shape) > 1:
+                # the same logical arrays in other memory layouts (Fortran order, transposed views): elementwise means the same numbers
+                for lname, conv in (('F', np.asfortranarray), ('transposed', lambda a_: np.ascontiguousarray(a_.T).T)):
+                    try:
+                        gl, el = dea3(conv(b0), conv(b1), conv(b2))
+                    except Exception as ex:
+                        rep.violation('raises-array', dict(shape=shape, layout=lname), 'dea3 raised %r on a %s-layout array of shape %s' % (ex, lname, shape))
+                        continue
+                    if not (np.shape(gl) == shape and np.array_equal(gl, got, equal_nan=True) and np.array_equal(el, gerr, equal_nan=True)):
+                        bad_j = int(np.argmax(~((np.asarray(gl) == got) | (np.isnan(gl) & np.isnan(got))).ravel())) if np.shape(gl) == shape else -1
+                        rep.violation('layout', dict(shape=shape, layout=lname, element=bad_j),
+                                      'dea3 on the %s-layout copy of a %s array differs from the C-layout result (element %d: %r vs %r)' % (lname, shape, bad_j, np.ravel(gl)[bad_j] if bad_j >= 0 else None, np.ravel(got)[bad_j] if bad_j >= 0 else None))
             if len(shape) == 1:
                 gs, es = dea3(v0, v1, v2, symmetric=True)
                 if not (np.array_equal(gs, got[:-1]) and np.array_equal(es, gerr[1:])):
@@ -230,6 +242,28 @@ def run(tier, rep):
         if not (np.shape(gs) == np.shape(got[:-1]) and np.array_equal(gs, got[:-1]) and np.shape(es) == np.shape(gerr[1:]) and np.array_equal(es, gerr[1:])):
             rep.violation('symmetric:short', dict(shape=shape, got=[list(np.shape(gs)), list(np.shape(es))]),
                           'symmetric=True on inputs of shape %s returns shapes %s / %s: not the plain result with one element trimmed from each output' % (shape, np.shape(gs), np.shape(es)))
+    # ... and on inputs where EVERY element is converged (constant, tied or zero triples): nothing to extrapolate, same trimming;
+    # a smaller third operand broadcasts like any numpy operand
+    for shape in [(2,), (4,), (3, 2), (5, 1)]:
+        for kind in ('constant', 'zero', 'tied'):
+            m = int(np.prod(shape))
+            c = np.array([rnd.choice([1.0, -3.5, 0.125, 7.0]) * (j + 1) for j in range(m)]).reshape(shape)
+            v0, v1, v2 = (c.copy(), c.copy(), c.copy()) if kind == 'constant' else (np.zeros(shape), np.zeros(shape), np.zeros(shape)) if kind == 'zero' else (c + 1.0, c.copy(), c.copy())
+            try:
+                got, gerr = dea3(v0, v1, v2)
+                gs, es = dea3(v0, v1, v2, symmetric=True)
+                gb, eb = dea3(v0, v1, v2[:1])
+            except Exception as ex:
+                rep.violation('raises-array', dict(shape=shape, kind=kind), 'dea3 raised %r on an all-%s array of shape %s' % (ex, kind, shape))
+                continue
+            narr += 1
+            if not (np.shape(got) == shape and np.array_equal(got, v2) and (np.asarray(gerr) >= 0).all()):
+                rep.violation('converged-array', dict(shape=shape, kind=kind, got=np.asarray(got).tolist()), 'dea3 on an all-%s array of shape %s returns %s (shape %s), expected the last terms' % (kind, shape, np.asarray(got).tolist(), np.shape(got)))
+            elif not (np.shape(gs) == np.shape(got[:-1]) and np.array_equal(gs, got[:-1]) and np.shape(es) == np.shape(gerr[1:]) and np.array_equal(es, gerr[1:])):
+                rep.violation('symmetric:converged', dict(shape=shape, kind=kind, got=[list(np.shape(gs)), list(np.shape(es))]),
+                              'symmetric=True on an all-%s input of shape %s returns shapes %s / %s: not the plain result with one element trimmed from each output' % (kind, shape, np.shape(gs), np.shape(es)))
+            elif np.shape(gb) != shape:
+                rep.violation('broadcast', dict(shape=shape, kind=kind, got=list(np.shape(gb))), 'dea3(v0, v1, v2[:1]) on all-%s inputs of shape %s returns shape %s: the operands broadcast to %s' % (kind, shape, np.shape(gb), shape))
     states, trans, per = vlib.merge_tlc([res])
     cov = dict(states=states, transitions=trans, traces_validated_against_impl=nscalar + narr, guard_region_triples=nguard, scalar_replays=nscalar, array_replays=narr,
                samples=[cases[3], cases[-3]], evaluations=nscalar + narr, skipped_outside_exact_domain=skipped,
